@@ -70,11 +70,11 @@ def jobs(tier):
     add('mul', 'h_mul', 'mpz_mul', replace=arith + prims, defines=['SPEC_ABSTRACT'], timeout=900)
     add('div', 'h_div', 'mpz_div', replace=arith + prims + ['mpz_mul'], defines=['SPEC_ABSTRACT'], timeout=900, cbmc_args=['--object-bits', '10'])
     add('mod', 'h_mod', 'mpz_mod', replace=arith + prims + ['mpz_mul', 'mpz_div'], defines=['SPEC_ABSTRACT'], timeout=900, cbmc_args=['--object-bits', '10'])
-    n = int(os.environ.get('PARSE_N', '6' if tier == 'quick' else '10'))
+    n = int(os.environ.get('PARSE_N', '6' if tier == 'quick' else '8'))
     J.append(Job('literal_parse_int_len%d' % n, [os.path.join(HERE, 'parse_harness.c'), os.path.join(OUT, 'parse_bodies.c'),
                                                   os.path.join(OUT, 'int_bodies.c'), os.path.join(HERE, 'prims.c')],
                  'hb_parse_int', includes=inc, inputs=['n', 'text[*'], defines=['PARSE_MAXLEN=%d' % n], kind='bounded',
-                 unwind=n + 3, timeout=1500,
+                 unwind=n + 3, timeout=3000,
                  note='bounded: all scanner tokens "-"?[0-9][_a-zA-Z0-9]* of length <= %d; std::stoull by its model' % n))
     for shape, to in ((('hex16', 1500),) if tier == 'quick' else (('hex16', 1500), ('dec_boundary', 2400))):
         J.append(Job('literal_' + shape, [os.path.join(HERE, 'parse_harness.c'), os.path.join(OUT, 'parse_bodies.c'),
